@@ -175,9 +175,14 @@ COLLIDING_LEAVES = [
     lambda g: STRING(b"a"), lambda g: UNICODE_text("a"), lambda g: BINFLOAT_bits(0x7ff8000000000001),
     lambda g: BININT(2 ** 31 - 1), lambda g: LONG1(2 ** 31 - 1), lambda g: LONG1(2 ** 63), lambda g: BINFLOAT_bits(0x43e0000000000000),
     lambda g: INT(2 ** 63), lambda g: NONE,
+    # integers at the top of the float64 range and around the uint64 / int64 edges, as long and as float
+    lambda g: LONG1(2 ** 1023), lambda g: BINFLOAT_bits(0x7fe0000000000000), lambda g: LONG1(-2 ** 1023),
+    lambda g: BINFLOAT_bits(0xffe0000000000000), lambda g: LONG1(2 ** 64), lambda g: BINFLOAT_bits(0x43f0000000000000),
+    lambda g: LONG1(-2 ** 63), lambda g: BINFLOAT_bits(0xc3e0000000000000), lambda g: LONG1(2 ** 1023 + 1), lambda g: LONG1(2 ** 1024),
 ]
 COLLIDING_KINDS = ["int", "int", "float", "bool", "int", "int", "bool", "int", "bool", "float", "float", "int",
-                   "ustr", "str", "bytes", "str", "ustr", "float", "int", "int", "int", "float", "int", "none"]
+                   "ustr", "str", "bytes", "str", "ustr", "float", "int", "int", "int", "float", "int", "none",
+                   "int", "float", "int", "float", "int", "float", "int", "float", "int", "int"]
 
 
 class ProgGen:
@@ -486,6 +491,31 @@ def splice(rng, a, b):
 
 LENGTH_OPS = [(b"T", 4), (b"X", 4), (b"B", 4), (b"\x96", 8), (b"U", 1), (b"C", 1), (b"\x8c", 1), (b"\x8a", 1), (b"\x95", 8)]
 HUGE = [0, 1, 255, 256, 65535, 65536, 2 ** 31 - 1, 2 ** 31, 2 ** 31 + 1, 2 ** 32 - 1, 2 ** 63 - 1, 2 ** 63, 2 ** 63 + 1, 2 ** 64 - 1]
+
+
+def pad_to(n):
+    """Balanced, harmless instructions of total length n >= 2 (push None / a small int, pop it again)."""
+    if n % 2:
+        return b"N0" * ((n - 3) // 2) + b"K\x010"
+    return b"N0" * (n // 2)
+
+
+def boundary_programs(rng=None, sample=None, bufs=(4096, 8192)):
+    """One opcode whose argument (or length prefix, or payload) straddles a multiple of the decoder's 4096-byte read
+    buffer: k bytes of the opcode before the boundary, the rest after it. Returns (program, boundary offset)."""
+    ops = [BININT(0x01020304), BININT(-2), BININT2(0x0102), BININT1(7), BINFLOAT_bits(0x3ff8000000000000), LONG1(2 ** 70 + 5),
+           LONG1(-2 ** 63), SHORT_BINSTRING(b"abcdef"), BINSTRING(b"abcdef"), BINUNICODE(b"abcdef"), SHORT_BINUNICODE(b"abcdef"),
+           BINBYTES(b"abcdef"), SHORT_BINBYTES(b"abcdef"), BYTEARRAY8(b"abcdef"), INT(123456), LONG(12345678901234567890), FLOAT(1.5),
+           STRING(b"abcdef"), UNICODE_text("abcdef"), PERSID(b"abcdef"), GLOBAL(b"mod", b"name"), NONE + BINPUT(7), NONE + LONG_BINPUT(7),
+           NONE + PUT(7), PROTO(2) + NONE, FRAME(0) + NONE, NONE + BINPUT(1) + POP + BINGET(1), NONE + LONG_BINPUT(1) + POP + LONG_BINGET(1)]
+    out = []
+    for op in ops:
+        for k in range(1, len(op)):
+            for buf in bufs:
+                out.append((pad_to(buf - k) + op + b".", buf))
+    if sample is not None and rng is not None and len(out) > sample:
+        out = rng.sample(out, sample)
+    return out
 
 
 def length_field_cases():
